@@ -57,6 +57,18 @@ var scenarios = []struct{ name, text string }{
 	{"valid-with-operators", "grammar ops ;\nID = $ID ;\nWS = $WS ;\n@left \"*\" ;\n@left \"+\" ;\nstart = { stmt } ;\nstmt = ID \"=\" e \";\" ;\ne = e \"+\" e | e \"*\" e | [ \"-\" ] ID | \"(\" e \")\" ;\n"},
 }
 
+// The scenarios that end in several diagnostics are also written on ONE line: every declaration then has the same line
+// number, so an ordering of the diagnostics (or of the names inside one diagnostic) by line alone ties everywhere.
+func init() {
+	oneLine := map[string]bool{"two-definition-conflicts": true, "two-duplicate-values": true, "undefined-and-multiple": true, "mixed-kinds-multiple": true,
+		"mixed-kinds-same-value": true, "handles-in-two-levels": true, "repeated-identical-problems": true, "two-stages-fail": true}
+	for _, sc := range scenarios {
+		if oneLine[sc.name] {
+			scenarios = append(scenarios, struct{ name, text string }{sc.name + "-one-line", strings.ReplaceAll(strings.TrimSpace(sc.text), "\n", " ") + "\n"})
+		}
+	}
+}
+
 // recorder is a ui.UI that records every message.
 type recorder struct {
 	lines []string
